@@ -1,7 +1,8 @@
 (** C12 — strings are sequences of scalar values whatever the encoding: property theorems only.
     [cp c] = code point 0..0x10FFFF (a superset of the scalar values); [Rep h s cs] = in heap [h]
     the string record [s] (bytes object, offset, size) represents the code-point array [cs]. *)
-From ChibiV Require Import C12.Model C12.Spec C12.Utf8Proofs C12.Proofs C12.Proofs2 C12.Proofs3.
+From ChibiV Require Import C12.Model C12.Spec C12.Utf8Proofs C12.Proofs C12.Proofs2 C12.Proofs3 C12.Proofs4
+  C12.PortModel C12.PortProofs.
 Local Open Scope Z_scope.
 
 Theorem utf8_roundtrip : forall c, cp c -> forall rest,
@@ -125,3 +126,35 @@ Theorem string_to_utf8_of_utf8 : forall h s cs, Rep h s cs ->
   exists q s', of_utf8 h1 bv 0 (length (enc_all cs)) = Ok (h1 ++ [q], s') /\ Rep (h1 ++ [q]) s' cs.
 Proof. intros h s cs R. split; [exact (to_utf8_refines h s cs R)|exact (to_utf8_of_utf8 h s cs R)]. Qed.
 Print Assumptions string_to_utf8_of_utf8.
+
+(* ---- round 2 ---- *)
+(** string-concatenate / string-join with a separator of any byte width (Some sp), the empty separator, or none *)
+Theorem concat_refines : forall h ss css sep seps, Forall2 (Rep h) ss css ->
+  match sep with Some sp => Rep h sp seps | None => seps = [] end ->
+  exists q s', string_concatenate h ss sep = (h ++ [q], s') /\ sbytes s' = length h /\
+               Rep (h ++ [q]) s' (intercalate seps css).
+Proof. exact concatenate_refines. Qed.
+Print Assumptions concat_refines.
+
+(** [port_ok p]: offset <= size <= buffer length; string ports have no source, refillable ports a buffer
+    longer than BUF_START.  [pending p]: unread part of the buffer ++ unread source. *)
+Theorem read_char_refines : forall p c rest, port_ok p -> cp c -> pending p = encode c ++ rest ->
+  exists p', read_char p = (RChar c, p') /\ port_ok p' /\ pending p' = rest.
+Proof. exact read_char_spec. Qed.
+Print Assumptions read_char_refines.
+
+Theorem peek_leaves_stream_unchanged : forall p c rest, port_ok p -> cp c -> pending p = encode c ++ rest ->
+  exists p', peek_char p = (RChar c, p') /\ port_ok p' /\ pending p' = pending p.
+Proof. exact peek_char_spec. Qed.
+Print Assumptions peek_leaves_stream_unchanged.
+
+Theorem read_string_refines : forall n p cs, port_ok p -> Forall cp cs -> pending p = enc_all cs ->
+  exists p', read_string n p = (firstn n cs, p') /\ port_ok p' /\ pending p' = enc_all (skipn n cs).
+Proof. exact read_string_spec. Qed.
+Print Assumptions read_string_refines.
+
+Theorem port_char_roundtrip : forall cs n src sched, Forall cp cs -> (BUF_START < n)%nat -> src = enc_all cs ->
+  (exists p', read_string (length cs) (open_fd_port n src sched) = (cs, p') /\ pending p' = [] /\ port_ok p') /\
+  (exists p', read_string (length cs) (open_string_port src) = (cs, p') /\ pending p' = [] /\ port_ok p').
+Proof. exact port_read_roundtrip. Qed.
+Print Assumptions port_char_roundtrip.
